@@ -457,7 +457,6 @@ func InstrPos(ins ssa.Instruction) token.Pos {
 	return token.NoPos
 }
 
-
 // sameLoad: two loads of the same field/element address expression (equal structural
 // signature); used for the `if x.f != nil { return x.f }` idiom where the compiler emits
 // two loads. Assumes no intervening write, which holds for the guard/return idiom.
